@@ -1,4 +1,4 @@
-//@ property: C02
+//@ property: C02 C01
 //@ unit: c02_ids tier=quick
 //@ clause: the byte stream handed to SHA-256d by txid() is version || 0x00 || inputs || outputs || lock_time (the witness-stripped serialization), by wtxid() the full serialization, by block_hash() the header fields with the dynafed bit set for dynafed headers and WITHOUT solution / signblock witness; Transaction::consensus_encode writes flag = has_witness and the witnesses (inputs then outputs) only when flagged; clear_witness changes nothing that is hashed; wtxid == txid when there is no witness; any number of inputs/outputs
 use vstd::prelude::*;
